@@ -378,6 +378,7 @@ def check_snapshot(case):
   got = []
   test.add_output_callbacks(got.append)
   state = {'runs': 0, 'unset_after_set': False}
+  wants = []
 
   def expect(loaded):
     out = {}
@@ -416,6 +417,14 @@ def check_snapshot(case):
         for full in keys.values():
           if (full in conf) != (full in want):
             r.bad('C20/snapshot/contains-disagrees', '%r in conf is %r, model %r' % (full, full in conf, full in want))
+        # a snapshot is of its own run: the records of earlier runs still show the configuration of *their* moment
+        wants.append(want)
+        for j, (rec_j, want_j) in enumerate(zip(got, wants)):
+          mine_j = {k: v for k, v in rec_j.metadata.get('config', {}).items() if k.startswith(pre)}
+          if mine_j != want_j:
+            r.bad('C20/snapshot/earlier-record-changed-by-later-run', 'after run %d the record of run %d shows %r, the configuration when it ran was %r' % (
+                state['runs'], j + 1, mine_j, want_j))
+            return
       elif op[0] == 'scope':
         saved = dict(loaded)
 
